@@ -5,12 +5,16 @@ From Coq Require Import QArith Qround.
 Open Scope Q_scope.
 
 Definition sqrt_bits : positive := 40.
+(* square roots to 2^-40 RELATIVE: the argument is first scaled by a power of four to at least 1 (an
+   absolute 2^-40 is useless for norms of size 1e-10).  k with x * 4^k >= 1 for small x, 0 for x >= 1: *)
+Definition sqrt_shift (x : Q) : Z :=
+  Z.max 0 ((Z.log2_up (Zpos (Qden x)) - Z.log2 (Qnum x)) / 2 + 1).
 Definition sqrt_q (x : Q) : Q :=
   if Qleb x 0 then 0
   else
-    let s := Zpos (2 ^ (2 * sqrt_bits))%positive in
-    let n := Qfloor (x * inject_Z s) in
-    (Z.sqrt n) # (2 ^ sqrt_bits)%positive.
+    let e := (Zpos sqrt_bits + sqrt_shift x)%Z in
+    let n := Qfloor (x * inject_Z (2 ^ (2 * e))) in
+    (Z.sqrt n) # (Z.to_pos (2 ^ e)).
 
 Definition vnorm (v : vec) : Q := sqrt_q (qnorm (dot v v)).
 Definition vsqrt (v : vec) : vec := map sqrt_q v.
